@@ -57,6 +57,7 @@ pzgstrf_snode_dfs(
     nsuper = NewNsuper(pnum, pxgstrf_shared, &Glu->nsuper);
     Glu->xsup[nsuper]     = jcol;
     Glu->xsup_end[nsuper] = kcol + 1;
+    SLU_VERIF_EV(SLU_VEV_NSUPER, pnum, jcol, nsuper, 1, pxgstrf_shared);
     
     nextl = 0;
     for (i = jcol; i <= kcol; i++) {
@@ -76,6 +77,7 @@ pzgstrf_snode_dfs(
 				pxgstrf_shared)) )
 	return mem_error;
     
+    SLU_VERIF_EV(SLU_VEV_LSUB, pnum, jcol, ito, 2*nextl, pxgstrf_shared);
     xlsub[jcol] = ito;
     lsub        = Glu->lsub;
     for (ifrom = 0; ifrom < nextl; ++ifrom)
